@@ -483,6 +483,87 @@ def unroll_literal_loops(tree, max_items=8, max_body=12):
     return n
 
 
+def _comprehension_as_loop(st, resolve, owner, counter):
+    """``T = [helper(...) for v in it]`` with an inlinable helper as the element: the helper has statements (early returns, a raise), which have no
+    place inside an expression - the comprehension is read as the loop it abbreviates (fresh list, one append per element, then bound to T), whose
+    ``item = helper(...)`` statement the inliner expands.  merge_list_appends gives rules one form for both spellings afterwards."""
+    if not (isinstance(st, ast.Assign) and len(st.targets) == 1 and isinstance(st.targets[0], ast.Name) and isinstance(st.value, ast.ListComp)):
+        return [st]
+    lc = st.value
+    if len(lc.generators) != 1 or not isinstance(lc.elt, ast.Call):
+        return [st]
+    g = lc.generators[0]
+    if g.ifs or g.is_async or not isinstance(g.target, ast.Name):
+        return [st]
+    fn, _m = resolve(lc.elt)
+    if fn is None or fn is owner or not any(isinstance(x, (ast.Return, ast.Raise)) for b_ in fn.body[:-1] for x in ast.walk(b_)):
+        return [st]      # an expression helper is inlined where it stands
+    counter[0] += 1
+    k = counter[0]
+    lst, item, var = f"_lc{k}", f"_lc{k}_item", f"_lc{k}_{g.target.id}"
+    import copy
+    elt = _Subst({g.target.id: ast.Name(id=var, ctx=ast.Load())}).visit(copy.deepcopy(lc.elt))
+    new = [ast.Assign(targets=[ast.Name(id=lst, ctx=ast.Store())], value=ast.List(elts=[], ctx=ast.Load())),
+           ast.For(target=ast.Name(id=var, ctx=ast.Store()), iter=g.iter, orelse=[], body=[
+               ast.Assign(targets=[ast.Name(id=item, ctx=ast.Store())], value=elt),
+               ast.Expr(value=ast.Call(func=ast.Attribute(value=ast.Name(id=lst, ctx=ast.Load()), attr="append", ctx=ast.Load()),
+                                       args=[ast.Name(id=item, ctx=ast.Load())], keywords=[]))]),
+           ast.Assign(targets=[st.targets[0]], value=ast.Name(id=lst, ctx=ast.Load()))]
+    for n_ in new:
+        ast.copy_location(n_, st)
+        for sub in ast.walk(n_):
+            if not hasattr(sub, "lineno"):
+                ast.copy_location(sub, st)
+        ast.fix_missing_locations(n_)
+    return new
+
+
+def _sink_item_appends(tree):
+    """After a comprehension was read as a loop and its helper expanded, the element is assigned on every path of an if / else and appended once after it:
+    ``if c: item = A  else: item = B`` + ``L.append(item)``  ->  ``if c: L.append(A)  else: L.append(B)`` (only for the temporaries made here), the
+    form of a hand-written filling loop."""
+    def leaves_assign(stmts, name):
+        """every path through stmts ends with `name = X` (or leaves by raise)"""
+        if not stmts:
+            return False
+        last = stmts[-1]
+        if isinstance(last, ast.Assign) and len(last.targets) == 1 and isinstance(last.targets[0], ast.Name) and last.targets[0].id == name:
+            return True
+        if isinstance(last, ast.Raise):
+            return True
+        if isinstance(last, ast.If) and last.orelse:
+            return leaves_assign(last.body, name) and leaves_assign(last.orelse, name)
+        return False
+
+    def rewrite(stmts, name, app):
+        last = stmts[-1]
+        if isinstance(last, ast.Assign):
+            call = copy.deepcopy(app)
+            call.value.args = [last.value]
+            ast.copy_location(call, last)
+            ast.fix_missing_locations(call)
+            stmts[-1] = call
+        elif isinstance(last, ast.If):
+            rewrite(last.body, name, app)
+            rewrite(last.orelse, name, app)
+
+    for holder in ast.walk(tree):
+        for field in ("body", "orelse", "finalbody"):
+            blk = getattr(holder, field, None)
+            if not (isinstance(blk, list) and len(blk) >= 2 and isinstance(blk[0], ast.stmt)):
+                continue
+            k = 1
+            while k < len(blk):
+                a, app = blk[k - 1], blk[k]
+                if isinstance(app, ast.Expr) and isinstance(app.value, ast.Call) and isinstance(app.value.func, ast.Attribute) and app.value.func.attr == "append" \
+                        and len(app.value.args) == 1 and isinstance(app.value.args[0], ast.Name) and app.value.args[0].id.startswith("_lc") and app.value.args[0].id.endswith("_item") \
+                        and isinstance(a, ast.If) and a.orelse and leaves_assign([a], app.value.args[0].id):
+                    rewrite([a], app.value.args[0].id, app)
+                    del blk[k]
+                else:
+                    k += 1
+
+
 def inline_free_helpers(tree):
     """Inline the module's own free private helpers at statement-level call sites (in place); returns the number of sites."""
     total = 0
@@ -522,6 +603,7 @@ def inline_free_helpers(tree):
         def block(stmts, owner):
             nonlocal n_round
             out = []
+            stmts = [x_ for st in stmts for x_ in _comprehension_as_loop(st, resolve, owner, counter)]
             for st in stmts:
                 call = kind = targets = None
                 if isinstance(st, ast.Assign) and isinstance(st.value, ast.Call):
@@ -558,5 +640,6 @@ def inline_free_helpers(tree):
         if n_round == 0:
             break
     unroll_literal_loops(tree)
+    _sink_item_appends(tree)
     merge_list_appends(tree)
     return total
